@@ -12,7 +12,8 @@ P("C27",
              "page overlaps any other page of the table; allocation terminates. c27_mixed_sizes_refuted exhibits the confirmed "
              "overlap with an unaligned / larger pre-inserted page (known finding). The tick-level model is compared exactly "
              "(responses, cursor, walks in flight, final table) with the real MMU component driven through its real Top port.",
-  level_note="Trusted: Coq kernel + vm_compute; the Go harness; the hand-written model of translationmw.go (tied exactly per tick).",
+  level_note="c27_model_agreement_implies_property transfers the one-mapping statement to the responses observed on the real MMU. "
+             "Trusted: Coq kernel + vm_compute; the Go harness; the hand-written model of translationmw.go (tied exactly per tick).",
   assumptions=["the MMU stays Enabled (no control traffic) and is the only writer of the page table during the run",
                "MMU Log2PageSize = page table log2 page size < 64 (the builder panics otherwise; uint64(1)<<64 = 0 would make the allocation loop spin)",
                "uniform table: every pre-inserted page has PageSize = 2^log2, PAddr and VAddr multiples of it",
